@@ -9,19 +9,16 @@ def canon(r):
     return "%d %s" % (r["rc"], ",".join(r["out"].split()))
 
 
-def parse_clause(script, b):
+def parse_variant(script):
     """Defects of the parser that stop a valid program before it runs are not part of the flow model:
-    re-run brush on a token-identical variant that avoids the construct; the clause explains the
-    divergence only if the variant behaves like bash. (`esac )` and `! exit n` were repaired in /repo;
-    `( (` could not be: a snapshot test pins the defective parse.)"""
-    if "( (" in script:
-        v = script
-        while "( (" in v:
-            v = v.replace("( (", "(\n(")
-        bv, ov = lib.run_both(v, timeout=20)
-        if canon(bv) == canon(ov):
-            return "nested_subshell_as_arith"
-    return None
+    a token-identical variant of the script avoids the construct (`( (` → newline between the parentheses).
+    (`esac )` and `! exit n` were repaired in /repo; `( (` could not be: a snapshot test pins the defective parse.)"""
+    if "( (" not in script:
+        return None, None
+    v = script
+    while "( (" in v:
+        v = v.replace("( (", "(\n(")
+    return "nested_subshell_as_arith", v
 
 
 def decide(ctx, cases, drv_prop="C02", fd3=False):
@@ -64,11 +61,22 @@ def decide(ctx, cases, drv_prop="C02", fd3=False):
                 ctx.violation("brush differs from bash inside the proved domain although the model agrees with brush "
                               "(model or theorem wrong?)", case)
         else:
-            # model != brush: features outside the model (parser defects) or a broken correspondence
-            clause = parse_clause(s, b)
-            if clause and not prop_holds:
-                ctx.known_or_violation(clause, "brush fails to parse a valid program", case)
-            elif prop_holds:
+            # model != brush: a parser defect outside the model, or a broken correspondence
+            clause, variant = parse_variant(s)
+            if clause:
+                bv = lib.run_shell("brush", variant, timeout=20)
+                cbv = canon(bv)
+                if cbv == impl:
+                    # the parser defect explains why brush left its model; judge the rest on the variant
+                    ctx.known_or_violation(clause, "brush fails to parse a valid program", case)
+                    if cbv != co:
+                        if dom:
+                            for c in dom:
+                                ctx.known_or_violation(c, "brush and bash run different commands / statuses", case)
+                        else:
+                            ctx.violation("brush differs from bash inside the proved domain (variant without the parser defect)", case)
+                    continue
+            if prop_holds:
                 ctx.violation("control-flow model and brush disagree (correspondence broken; brush still equals bash here)",
                               case, kind="correspondence")
             else:
